@@ -25,7 +25,11 @@ TRUSTED = [
     "oracle: the explicit procedure is executed with the real nodes (Node.run / Node.fit / Node.call / Node.train) on fresh copies",
 ]
 ASSUMPTIONS = [
-    "no feedback connections in trained models (feedback / forced teachers are C05); forward nodes keep no memory outside their state",
+    "no feedback connections in trained models (feedback / forced teachers are C05), except family fb-noforce: reservoir <<= unfitted readout "
+    "fitted with force_teachers=False, where the value received is the readout's own state, zeros (model: NFwdFb feeds zeros to KResFb; "
+    "oracle: the same reservoir without the connection); forward nodes keep no memory outside their state",
+    "successive Model.train calls: each call is Model.train from the states / parameters left by the previous one, the learn_every gate "
+    "(and the one-timestep exception) restarting at i = 0 of each call",
     "weights, inputs and targets are small dyadic rationals, ridge in [1/4, 4], RLS alpha in [1/4, 4], LMS rates <= 1/16: float64 agrees with "
     "exact arithmetic far below the 1e-9 relative tolerance",
     "activations are exactly computable callables (identity, relu, hard-tanh, x/2)",
@@ -80,7 +84,7 @@ def mk_input(i, name, d):
     return {"id": i, "name": name, "kind": "input", "idim": d, "odim": d}
 
 
-FIT_FAMILIES = ["chain", "inchain", "deep", "shortcut", "parallel", "entry-readout", "deep3", "esn", "cross-ok", "esn+hist", "model+hist"]
+FIT_FAMILIES = ["chain", "inchain", "deep", "shortcut", "parallel", "entry-readout", "deep3", "esn", "cross-ok", "esn+hist", "model+hist", "fb-noforce"]
 # histories before the fit that is checked: the nodes then hold a non-zero state when fit() is called
 HISTORIES = ["refit", "run-then-fit", "refit-run-fit", "from_state"]
 EXOTIC = ["early-output-readout", "cross-stage-concat-order", "cross-stage-multi-source", "entry-readout-with-forward"]
@@ -100,6 +104,13 @@ def gen_fit(rng, family):
     expect = "valid"
     if family in ("chain", "esn"):
         nodes = [mk_res(rng, 0, "a_res", d), mk_ridge(rng, 1, "b_rd", o)]
+        edges = [[0, 1]]
+    elif family == "fb-noforce":
+        # reservoir <<= readout, fitted with force_teachers=False: the reservoir receives the unfitted readout's own state (zeros)
+        r = mk_res(rng, 0, "a_res", d)
+        u = len(r["W"])
+        r.update(kind="resfb", Wfb=scengen.mat(rng, u, o, 2, 1), fbact=rng.choice(["id", "relu", "half"]), fb={"node": 1})
+        nodes = [r, mk_ridge(rng, 1, "b_rd", o)]
         edges = [[0, 1]]
     elif family == "inchain":
         nodes = [mk_input(0, "a_in", d), mk_res(rng, 1, "b_res", d), mk_ridge(rng, 2, "c_rd", o)]
@@ -169,6 +180,8 @@ def gen_fit(rng, family):
     if family == "esn":
         sc["reset"] = True     # ESN.fit resets the reservoir at the start of every sequence
         sc["xmode"] = "array"
+    elif family == "fb-noforce" or (hist is None and rng.random() < 0.25):
+        sc["force_teachers"] = False      # Model.fit(..., force_teachers=False): the targets still fit the readouts, nothing is forced
     if hist is not None:
         sc["hist"] = hist
         pre = []
@@ -198,6 +211,9 @@ class Built:
                 self.nodes[nd["id"]] = Ridge(ridge=float(Fraction(nd["ridge"])), input_bias=nd["bias"], name="%s_%s" % (self.prefix, nd["name"]), **kw)
             else:
                 self.nodes[nd["id"]] = scen.build_node(nd, self.prefix)
+        for nd in sc["nodes"]:
+            if nd.get("fb") is not None:
+                self.nodes[nd["id"]] <<= self.nodes[nd["fb"]["node"]]
         if sc["family"] == "esn":
             self.model = ESN(reservoir=self.nodes[0], readout=self.nodes[1], workers=1, name="%s_esn" % self.prefix)
         else:
@@ -276,6 +292,8 @@ def run_fit(sc):
             if sc.get("from_state"):
                 kw["from_state"] = {b.byid[int(i)].name: fl([v]) for i, v in sc["from_state"].items()}
             b.model.fit(X, Y, warmup=sc["warmup"], **kw)
+        elif "force_teachers" in sc:
+            b.model.fit(X, Y, warmup=sc["warmup"], reset=sc["reset"], force_teachers=sc["force_teachers"])
         else:
             b.model.fit(X, Y, warmup=sc["warmup"], reset=sc["reset"])
     except Exception as e:  # noqa: BLE001
@@ -299,6 +317,8 @@ def fit_to_coq(sc, b, o):
             n = nd[i]
             if n["kind"] == "ridge":
                 terms.append("(%s, NRidge %s %s %s)" % (nat(i), coqbool(n["bias"]), q(n["ridge"]), nat(n["odim"])))
+            elif n["kind"] == "resfb":
+                terms.append("(%s, NFwdFb %s %s %s)" % (nat(i), scen.kind_term(n), nat(n["odim"]), nat(nd[n["fb"]["node"]]["odim"])))
             else:
                 terms.append("(%s, NFwd %s %s)" % (nat(i), scen.kind_term(n), nat(n["odim"])))
         else:
@@ -357,12 +377,19 @@ def gen_train(rng, family):
         edges = [[0, 1], [0, 2], [1, 2]]
     else:
         raise ValueError(family)
-    T = rng.choice([1, 2, 3, 4, 5, 6, 7])
+    k = rng.choice([1, 2, 2, 3, 4])
+    # 1-3 successive Model.train calls on the same model; lengths that are not multiples of learn_every and one-timestep calls are
+    # frequent, so that a gate counting timesteps across calls (instead of restarting at i = 0 of each call) changes which steps update
+    ncalls = rng.choice([1, 2, 2, 3, 3])
+    lens = [rng.choice([1, 1, 2, 3, 4, 5, 7]) for _ in range(ncalls)]
     if family == "deep-rls":
-        T = min(T, 4)          # exact rationals through two chained RLS recursions grow fast
+        lens = [min(T, 3) for T in lens][:2]          # exact rationals through two chained RLS recursions grow fast
+    while sum(lens) > 10:
+        lens = lens[:-1]
     lim = 4 if "lms" not in family and not any(n["kind"] == "lms" for n in nodes) else 2
-    return {"op": "train", "family": family, "nodes": nodes, "edges": edges, "din": d, "X": rows(rng, T, d, lim, 1), "Y": rows(rng, T, o, 4, 1),
-            "k": rng.choice([1, 2, 2, 3, 4]), "xmode": rng.choice(["array", "mapping", "mapping"]), "ymode": rng.choice(["array", "mapping"])}
+    calls = [{"X": rows(rng, T, d, lim, 1), "Y": rows(rng, T, o, 4, 1)} for T in lens]
+    return {"op": "train", "family": family, "nodes": nodes, "edges": edges, "din": d, "calls": calls, "X": calls[0]["X"], "Y": calls[0]["Y"],
+            "k": k, "xmode": rng.choice(["array", "mapping", "mapping"]), "ymode": rng.choice(["array", "mapping"])}
 
 
 class BuiltT:
@@ -397,10 +424,11 @@ class BuiltT:
     def online_ids(self):
         return [nd["id"] for nd in self.sc["nodes"] if nd["kind"] in ("rls", "lms")]
 
-    def data_args(self, xmode=None, ymode=None):
+    def data_args(self, xmode=None, ymode=None, call=None):
         sc = self.sc
-        X = fl(sc["X"])
-        Y = fl(sc["Y"])
+        call = call or sc
+        X = fl(call["X"])
+        Y = fl(call["Y"])
         if (xmode or sc["xmode"]) == "mapping":
             X = {n.name: X for n in self.model.input_nodes}
         if (ymode or sc["ymode"]) == "mapping":
@@ -419,20 +447,26 @@ class BuiltT:
         return [nd for nd in self.sc["nodes"] if nd["id"] == i][0]["kind"]
 
 
+def calls_of(sc):
+    return sc.get("calls") or [{"X": sc["X"], "Y": sc["Y"]}]
+
+
 def run_train(sc, xmode=None, ymode=None):
     b = BuiltT(sc)
     order, edges, parents = b.graph()
-    X, Y = b.data_args(xmode, ymode)
     outs_ids = sorted(b.nid(n) for n in b.model.output_nodes)
-    res = b.model.train(X, Y, learn_every=sc["k"])
-    if isinstance(res, dict):
-        arrs = [np.asarray(res[b.byid[i].name]) for i in outs_ids]
-    else:
-        arrs = [np.asarray(res)]
-    T = len(sc["X"])
-    outs = [[a[t].tolist() for a in arrs] for t in range(T)]
-    return b, {"order": order, "edges": edges, "parents": parents, "outs_ids": outs_ids, "outs": outs, "params": b.params(),
-               "inputs": [b.nid(n) for n in b.model.input_nodes]}
+    obs = []
+    for call in calls_of(sc):
+        X, Y = b.data_args(xmode, ymode, call)
+        res = b.model.train(X, Y, learn_every=sc["k"])
+        if isinstance(res, dict):
+            arrs = [np.asarray(res[b.byid[i].name]) for i in outs_ids]
+        else:
+            arrs = [np.asarray(res)]
+        T = len(call["X"])
+        obs.append({"outs": [[a.reshape(T, -1)[t].tolist() for a in arrs] for t in range(T)], "params": b.params()})
+    return b, {"order": order, "edges": edges, "parents": parents, "outs_ids": outs_ids, "calls": obs,
+               "outs": obs[0]["outs"], "params": obs[-1]["params"], "inputs": [b.nid(n) for n in b.model.input_nodes]}
 
 
 def train_to_coq(sc, b, o):
@@ -452,21 +486,20 @@ def train_to_coq(sc, b, o):
             odim[i] = sum(odim[p] for p in o["parents"].get(i, []))
             terms.append("(%s, TFwd KId %s)" % (nat(i), nat(odim[i])))
     online = b.online_ids()
-    steps = coqlist(["(%s, %s)" % (coqlist(["(%s, %s)" % (nat(i), qvec(x)) for i in o["inputs"]]),
-                                   coqlist(["(%s, %s)" % (nat(i), qvec(y)) for i in online]))
-                     for x, y in zip(sc["X"], sc["Y"])])
-    par = coqlist(["(%s, (%s, %s, %s))" % (nat(i), qmat(p["W"]), qvec(p["b"]), qmat(p["P"])) for i, p in sorted(o["params"].items())])
     es = coqlist(["(%s, %s)" % (nat(a), nat(c)) for a, c in o["edges"]])
-    t = "chk_train %s %s %s %s %s %s %s %s %s" % (coqlist(terms), coqlist([nat(i) for i in o["order"]]), es,
-                                                  coqlist([nat(i) for i in online]), coqlist([nat(i) for i in o["outs_ids"]]),
-                                                  nat(sc["k"]), steps, coqlist([qmat(s) for s in o["outs"]]), par)
-    if len(online) == 1 and o["order"][-1] == online[0]:
-        r = online[0]
-        p = o["params"][r]
-        t = "(%s && chk_train_explicit %s %s %s %s %s %s %s (%s, %s, %s))" % (
-            t, coqlist(terms), coqlist([nat(i) for i in o["order"][:-1]]), nat(r), es, nat(sc["k"]), steps,
-            qmat([s[0] for s in o["outs"]]), qmat(p["W"]), qvec(p["b"]), qmat(p["P"]))
-    return t
+    cts = []
+    for call, ob in zip(calls_of(sc), o["calls"]):
+        steps = coqlist(["(%s, %s)" % (coqlist(["(%s, %s)" % (nat(i), qvec(x)) for i in o["inputs"]]),
+                                       coqlist(["(%s, %s)" % (nat(i), qvec(y)) for i in online]))
+                         for x, y in zip(call["X"], call["Y"])])
+        par = coqlist(["(%s, (%s, %s, %s))" % (nat(i), qmat(p["W"]), qvec(p["b"]), qmat(p["P"])) for i, p in sorted(ob["params"].items())])
+        cts.append("(%s, %s, %s)" % (steps, coqlist([qmat(st) for st in ob["outs"]]), par))
+    expl = "None"
+    if len(online) == 1 and o["order"][-1] == online[0] and o["outs_ids"] == [online[0]]:
+        expl = "(Some (%s, %s))" % (coqlist([nat(i) for i in o["order"][:-1]]), nat(online[0]))
+    return "chk_train_calls %s %s %s %s %s %s %s %s" % (coqlist(terms), coqlist([nat(i) for i in o["order"]]), es,
+                                                        coqlist([nat(i) for i in online]), coqlist([nat(i) for i in o["outs_ids"]]),
+                                                        nat(sc["k"]), expl, coqlist(cts))
 
 
 # ------------------------------------------------------------------------------------------ correspondence
@@ -484,7 +517,7 @@ def gen_cases(rng, n, exotic=True):
 def nontrivial(sc, o):
     if sc["op"] == "fit":
         return o["ok"] and any(abs(v) > 1e-6 for p in o["params"].values() for r in p["W"] for v in r)
-    return any(abs(v) > 1e-6 for p in o["params"].values() for r in p["W"] for v in r) and len(sc["X"]) > 1
+    return any(abs(v) > 1e-6 for p in o["params"].values() for r in p["W"] for v in r) and sum(len(c["X"]) for c in calls_of(sc)) > 1
 
 
 def correspondence(ctx):
@@ -543,6 +576,11 @@ def explicit_fit_real(sc):
     the copies before the pass that is compared.  The ESN node runs EVERY training sequence from the null reservoir state whatever
     the ESN did before (run, earlier fit, from_state): its explicit procedure ignores the history."""
     esn = sc["family"] == "esn"
+    if sc["family"] == "fb-noforce":
+        # not forcing the targets: the receiver sees the unfitted readout's own state, zeros, i.e. Wfb @ g(0) = 0 at every step:
+        # the explicit procedure runs the same reservoir WITHOUT the feedback connection
+        sc = dict(sc, nodes=[dict({k: v for k, v in n.items() if k not in ("fb", "Wfb", "fbact")}, kind="res") if n["kind"] == "resfb" else n
+                             for n in sc["nodes"]])
     b = Built(dict(sc, family="chain" if esn else sc["family"]))
     from reservoirpy.utils.graphflow import find_parents_and_children
     m = b.model
@@ -628,67 +666,79 @@ def judge_fit(sc):
 
 
 def explicit_train_real(sc):
-    """Per timestep: call every node in order on its sources, then (steps selected by learn_every, or the only step)
-    readout.train(x_t, y_t, call=False) for every online node.  Returns (outputs of the output nodes, params)."""
+    """For every Model.train call of the scenario, on the same real nodes: per timestep, call every node in order on its sources, then
+    (steps with i % learn_every == 0, i counted from the start of THIS call, or the only step of the call)
+    readout.train(x_t, y_t, call=False) for every online node.  Returns [(outputs of the output nodes, params after the call)]."""
     b = BuiltT(sc)
     from reservoirpy.utils.graphflow import find_parents_and_children
     m = b.model
     par, _ = find_parents_and_children(m.edges)
-    X, Y = fl(sc["X"]), fl(sc["Y"])
     inputs = set(n.name for n in m.input_nodes)
     online = set(b.online_ids())
     outs_ids = sorted(b.nid(n) for n in m.output_nodes)
-    outs = []
-    T = len(X)
-    for t in range(T):
-        cur, xin = {}, {}
-        for node in m.nodes:
-            srcs = [cur[p.name] for p in par.get(node, [])]
-            if node.name in inputs:
-                srcs.append(X[t:t + 1])
-            i = b.nid(node)
-            if i >= 100:
-                cur[node.name] = node.call(srcs)
-            else:
-                x = np.hstack(srcs)
-                xin[i] = x
-                if i in online and not node.is_initialized:
-                    node.initialize(x, Y[t:t + 1])
-                    node.initialize_buffers()
-                cur[node.name] = node.call(x)
-        outs.append([np.asarray(cur[b.byid[i].name]).ravel().tolist() for i in outs_ids])
-        if t % sc["k"] == 0 or T == 1:
+    res = []
+    for call in calls_of(sc):
+        X, Y = fl(call["X"]), fl(call["Y"])
+        outs = []
+        T = len(X)
+        for t in range(T):
+            cur, xin = {}, {}
             for node in m.nodes:
+                srcs = [cur[p.name] for p in par.get(node, [])]
+                if node.name in inputs:
+                    srcs.append(X[t:t + 1])
                 i = b.nid(node)
-                if i in online:
-                    node.train(xin[i], Y[t:t + 1], call=False)
-    return outs, b.params()
+                if i >= 100:
+                    cur[node.name] = node.call(srcs)
+                else:
+                    x = np.hstack(srcs)
+                    xin[i] = x
+                    if i in online and not node.is_initialized:
+                        node.initialize(x, Y[t:t + 1])
+                        node.initialize_buffers()
+                    cur[node.name] = node.call(x)
+            outs.append([np.asarray(cur[b.byid[i].name]).ravel().tolist() for i in outs_ids])
+            if t % sc["k"] == 0 or T == 1:
+                for node in m.nodes:
+                    i = b.nid(node)
+                    if i in online:
+                        node.train(xin[i], Y[t:t + 1], call=False)
+        res.append((outs, b.params()))
+    return res
+
+
+def _same_call(exp, ob):
+    eo, ep = exp
+    return _close(np.array(eo), np.array(ob["outs"])) and all(
+        _close(ep[i]["W"], ob["params"][i]["W"]) and _close(ep[i]["b"], ob["params"][i]["b"]) and _close(ep[i]["P"], ob["params"][i]["P"]) for i in ep)
 
 
 def judge_train(sc):
     try:
-        eo, ep = explicit_train_real(sc)
+        exp = explicit_train_real(sc)
     except Exception as e:  # noqa: BLE001
         return _viol("oracle:explicit-loop-raises", "the explicit per-timestep loop itself raises %r" % e, sc)
-    res = {}
     for xm in ("array", "mapping"):
         try:
             b, o = run_train(sc, xmode=xm)
         except Exception as e:  # noqa: BLE001
             return _viol("train:raises:%s-input" % xm, "Model.train raises %r" % e, sc)
-        res[xm] = o
-        same_out = _close(np.array(eo), np.array(o["outs"]))
-        same_par = all(_close(ep[i]["W"], o["params"][i]["W"]) and _close(ep[i]["b"], o["params"][i]["b"]) and _close(ep[i]["P"], o["params"][i]["P"])
-                       for i in ep)
-        if not (same_out and same_par):
-            # classify: did it behave as if learn_every were 1?
-            sc1 = dict(sc, k=1)
-            e1o, e1p = explicit_train_real(sc1)
-            every = sc["k"] > 1 and all(_close(e1p[i]["W"], o["params"][i]["W"]) for i in e1p)
-            key = ("learn_every-ignored:%s-input" % xm) if every else ("train:differs-from-loop:%s-input" % xm)
-            return _viol(key, "Model.train(X as %s, learn_every=%d) differs from the explicit per-timestep loop%s"
-                         % (xm, sc["k"], " (it updated at every step)" if every else ""), sc,
-                         {"outs": eo, "params": ep}, {"outs": o["outs"], "params": o["params"]})
+        for c, (ex, ob) in enumerate(zip(exp, o["calls"])):
+            if _same_call(ex, ob):
+                continue
+            lens = [len(cl["X"]) for cl in calls_of(sc)]
+            if c == 0:
+                # classify: did it behave as if learn_every were 1?
+                e1 = explicit_train_real(dict(sc, k=1))
+                every = sc["k"] > 1 and all(_close(e1[0][1][i]["W"], ob["params"][i]["W"]) for i in e1[0][1])
+                key = ("learn_every-ignored:%s-input" % xm) if every else ("train:differs-from-loop:%s-input" % xm)
+                what = "Model.train(X as %s, learn_every=%d) differs from the explicit per-timestep loop%s" \
+                       % (xm, sc["k"], " (it updated at every step)" if every else "")
+            else:
+                key = "train:later-call-differs-from-loop:%s-input" % xm
+                what = ("successive Model.train calls of lengths %s with learn_every=%d: call %d differs from the explicit per-timestep loop "
+                        "whose gate restarts at i = 0 of each call" % (lens, sc["k"], c + 1))
+            return _viol(key, what, sc, {"call": c, "outs": ex[0], "params": ex[1]}, {"call": c, "outs": ob["outs"], "params": ob["params"]})
     return None
 
 
